@@ -386,7 +386,9 @@ func c17O3(p *Prog, r *Report) {
 func c17O4(p *Prog, r *Report) {
 	r.Rule("C17.O4", "generator.Generate / config.Parse / comments.ParseDocs stop at the first failing converter: every error inside their loops is propagated (no success return reachable), every failing return of Generate yields a nil file map, and renderFiles is called outside the converter loop", 6)
 	errRuleOn(p, r, "generator.Generate", nil, nil)
-	errRuleOn(p, r, "generator.generateConverter", nil, nil)
+	if p.Func("generator.generateConverter") != nil {
+		errRuleOn(p, r, "generator.generateConverter", nil, nil)
+	}
 	errRuleOn(p, r, "config.Parse", nil, nil)
 	errRuleOn(p, r, "comments.ParseDocs", nil, nil)
 	_, sf := needFunc(p, r, "generator.Generate")
